@@ -973,10 +973,54 @@ fn main() {
     "SD-JWT credentials assembled by the harness (0-4 concealed subject claims + nested concealed claim, own SHA-256 digests, decoys, every \
      disclosed subset, forged / foreign / duplicated / garbage / reordered disclosures, _sd_alg forms) x issuer-side conditions (signature, \
      kid, issuer, nonce, dates, structure); KB-JWTs with each bound field right/wrong (typ, kid/method-id, scope, signature by other key, \
-     sd_hash over other concatenations, nonce, aud, iat at the inclusive window edges +-1 s and a day either side of now). accept <=> all hold; \
+     sd_hash over other concatenations, the presented disclosure list altered after the holder signed (empty / whitespace-only elements \
+     spliced in, dropped, appended, duplicated, swapped, padded; judged by the harness's own digest over the presented text; directly and \
+     through the wire text), nonce and aud signed as ordinary / empty / blank values against absent, equal, other, empty, blank and near-miss \
+     expectations (builder and JSON options), iat at the inclusive window edges +-1 s and a day either side of now). accept <=> all hold; \
      distinct = falsified vector x structural dimensions",
   );
   let mut rng = args.rng(16);
+  // A fixed sweep, the same at every seed and scale: every alteration of the presented list for 0..=3 signed-over disclosures, and every
+  // (signed value, expectation) pairing of nonce and of aud, each on an otherwise valid KB-JWT, directly and through the wire text.
+  {
+    let mut idx = 0u64;
+    let mut sweep: Vec<KbPlan> = Vec::new();
+    let mut base_rng = args.rng(1616);
+    for via_wire in [false, true] {
+      for alter in 1..=10u8 {
+        for n_disclosures in 0..=3usize {
+          let mut k = KbPlan::good(&mut base_rng);
+          k.alter = alter;
+          k.n_disclosures = n_disclosures;
+          k.via_wire = via_wire;
+          sweep.push(k);
+        }
+      }
+      for claim in 0..=2u8 {
+        for opt in 0..=7u8 {
+          for which in 0..2 {
+            let mut k = KbPlan::good(&mut base_rng);
+            k.via_wire = via_wire;
+            if which == 0 {
+              k.nonce_claim = claim;
+              k.nonce_opt = opt;
+            } else {
+              k.aud_claim = claim;
+              k.aud_opt = opt;
+            }
+            sweep.push(k);
+          }
+        }
+      }
+    }
+    for k in &sweep {
+      if args.mine(idx) {
+        cx.rep.inc("kb_fixed_sweep_cases");
+        cx.kb_scenario(&mut rng, k);
+      }
+      idx += 1;
+    }
+  }
   let n = (if args.thorough { 2_400_000u64 } else { 2_400 } * scale / 1000 / args.nshards).max(40);
   for i in 0..n {
     let mut p = CredPlan::good(&mut rng);
